@@ -65,6 +65,23 @@ fn main() {
         }
         ctx.finish()
     } else {
+        // seconds-long replay tier: golden regression cases first
+        let seed_dir = std::path::Path::new(mrverif::runner::VERIF_ROOT).join("seeds").join(&id);
+        if let Ok(rd) = std::fs::read_dir(&seed_dir) {
+            let mut files: Vec<_> = rd.flatten().map(|e| e.path()).filter(|p| p.extension().map(|e| e == "json").unwrap_or(false)).collect();
+            files.sort();
+            for f in files {
+                let Ok(body) = std::fs::read_to_string(&f).map_err(|e| e.to_string()).and_then(|s| serde_json::from_str::<serde_json::Value>(&s).map_err(|e| e.to_string())) else {
+                    eprintln!("unreadable seed file {}", f.display());
+                    continue;
+                };
+                let label = body.get("label").and_then(|l| l.as_str()).unwrap_or("").to_string();
+                let case = body.get("case").cloned().unwrap_or(serde_json::Value::Null);
+                if let Err(e) = props::replay(&ctx, &id, &label, case) {
+                    eprintln!("seed {} could not be replayed: {}", f.display(), e);
+                }
+            }
+        }
         if !props::run(&mut ctx, &id) {
             eprintln!("unknown property {}", id);
             mrverif::scratch::cleanup();
